@@ -90,6 +90,7 @@ func main() {
 		Params  map[string]int `json:"params"`
 		Witness bool           `json:"witness"`
 		Tag     string         `json:"tag"`
+		Deadline int           `json:"deadline_s"`
 	}
 	var jobs []job
 	if *jobsFile != "" {
@@ -151,7 +152,9 @@ func main() {
 				ec.NoMergeFuncs[f] = true
 			}
 		}
-		if *deadline > 0 {
+		if jb.Deadline > 0 {
+			ec.Deadline = time.Now().Add(time.Duration(jb.Deadline) * time.Second)
+		} else if *deadline > 0 {
 			ec.Deadline = time.Now().Add(*deadline)
 		}
 		ex := exec.New(prog, ts, solver, ec)
